@@ -24,7 +24,8 @@ RULE = ("Programs are discovered at run time (every CPUDispatcher and lazycompil
         "checked where the signature allows. Floats equal to 1e-9 relative (1e-5 for float32 inputs), integer outputs equal except a unit "
         "where the recorded unrounded value is within 1e-6 of a half, MK flags equal unless |p-0.05|<1e-9. The SciPy special functions "
         "bound into nopython code are compared bit for bit with scipy.special. A case counts as a disagreement check when both sides ran; "
-        "non-trivial = every such case; distinct by content hash.")
+        "non-trivial = every such case; distinct by content hash. "
+        " Added after the fourth seeded round: A third of the gufunc cases pass every array argument as a strided view.")
 ASSUME = ["the interpreted twin is the semantics of the source (CPython + NumPy + SciPy)",
           "twin runs that overflow a fixed-width NumPy integer are out of the property's domain and counted (never judged)"]
 
